@@ -417,6 +417,7 @@ func main() {
 	countCalls("target.go", "runTarget.Evaluate", "EvaluateTargets")
 	countCalls("project.go", "Project.Run", "Run")
 	o.Def("clientCalls", "List String", leanList(client))
+	depRecording(o, *repo)
 	// the dependency-error branch of runTarget.Evaluate: any result error fails the target
 	if cf, err := lib.Parse(*repo, "target.go"); err == nil {
 		if fd := cf.Func("runTarget.Evaluate"); fd != nil {
@@ -444,6 +445,44 @@ func main() {
 			}
 		}
 	}
+}
+
+// the `for it.Next(&dep)` loop of builtin_target, restricted to what decides the string under which a dependency
+// is recorded (the runner keys its one-record-per-label map by that string)
+func depRecording(o *lib.Out, repo string) {
+	cf, err := lib.Parse(repo, "project_builtins.go")
+	if err != nil {
+		o.Fail("parse project_builtins.go: %v", err)
+		o.Def("skel_builtin_target_deps", "String", `""`)
+		return
+	}
+	fd := cf.Func("Project.builtin_target")
+	var loop ast.Stmt
+	if fd != nil && fd.Body != nil {
+		ast.Inspect(fd.Body, func(x ast.Node) bool {
+			if fs, ok := x.(*ast.ForStmt); ok && loop == nil && fs.Cond != nil && mentions(fs.Cond, "Next") && mentions(fs.Body, "dependencies") {
+				loop = fs
+			}
+			return loop == nil
+		})
+	}
+	if loop == nil {
+		o.Fail("builtin_target: dependency loop not found")
+		o.Def("skel_builtin_target_deps", "String", `""`)
+		return
+	}
+	frag := &ast.FuncDecl{Name: fd.Name, Type: &ast.FuncType{}, Body: &ast.BlockStmt{List: []ast.Stmt{loop}}}
+	o.Def("skel_builtin_target_deps", "String", lib.LeanLongString(lib.NormFuncKeep(frag, func(s ast.Stmt) bool {
+		switch s := s.(type) {
+		case *ast.AssignStmt, *ast.DeclStmt:
+			return mentions(s, "deplabel") || mentions(s, "dependencies") || mentions(s, "RelativeTo") || mentions(s, "Parse")
+		case *ast.IfStmt:
+			return mentions(s.Cond, "IsAbs") || mentions(s.Cond, "deplabel")
+		case *ast.ForStmt:
+			return true
+		}
+		return false
+	})))
 }
 
 func mentions(n ast.Node, name string) bool {
